@@ -11,7 +11,8 @@ use vf_ref::frame::RFrame;
 
 fn lr() -> impl Strategy<Value = LR> {
     prop_oneof![
-        6 => prop::sample::select(vec![1u32, 2, 3, 7, 100, 3000]).prop_map(LR::Chunk),
+        // 8192 = a full BufReader buffer, what a busy socket hands to the bridge on every fill_buf
+        6 => prop::sample::select(vec![1u32, 2, 3, 7, 100, 3000, 8192, 8192, 16_384, 20_000]).prop_map(LR::Chunk),
         2 => (1u8..=3).prop_map(LR::PendingUntil),
     ]
 }
@@ -29,7 +30,7 @@ fn write_script() -> impl Strategy<Value = Vec<LW>> {
     ]
 }
 
-fn c13_case() -> impl Strategy<Value = Case> {
+pub fn c13_case() -> impl Strategy<Value = Case> {
     let sh = Shape { max_streams: 1, max_wops: 8, allow_empty: false, allow_drop: true, complete: false, small_windows: true, max_sched: 300 };
     (
         (opts(true), opts(true), cap(), cap()),
@@ -133,6 +134,26 @@ pub fn run_c13(case: &Case) -> Outcome {
             viol!("c13-local-data-not-relayed", "the local side produced {total_local} bytes before EOF, the bridge took {}", me.total_written());
         }
     }
+    // liveness of local -> peer: at quiescence (all harness wake-ups fired) the bridge may leave ready local data untaken only if
+    // it has no credit, the direction is closed, or it has ended; otherwise it is parked without a wake-up source
+    {
+        let ready_total: usize = b.read.iter().take_while(|x| !matches!(x, LR::PendingForever | LR::Eof | LR::Err)).map(|x| if let LR::Chunk(n) = x { (*n).max(1) as usize } else { 0 }).sum();
+        let pushes = run.events.iter().filter(|e| matches!(&e.ev, Ev::Sent { side, msg: WMsg::Frame(RFrame::Push { id: p, .. }), .. } if *side == bside && *p == id)).count() as i64;
+        let acked: i64 = run.events.iter().map(|e| if let Ev::Recv { side, msg: WMsg::Frame(RFrame::Acknowledge { id: p, n }) } = &e.ev { if *side == bside && *p == id && pushes > 0 { *n as i64 } else { 0 } } else { 0 }).sum();
+        // the handshake Acknowledge (when the bridged side opened the stream) carries the window, not returned credit
+        let handshake = if case.streams[0].side == bside { case.opts[1 - bside].rwnd as i64 } else { 0 };
+        let window = case.opts[1 - bside].rwnd as i64;
+        let credit = window - pushes + (acked - handshake).max(0);
+        let reset_seen = run.events.iter().any(|e| matches!(&e.ev, Ev::Recv { side, msg: WMsg::Frame(RFrame::Reset { id: p }) } if *side == bside && *p == id));
+        if a.healthy && done.is_none() && local_err.is_none() && !local_eof && !peer_let_go && !reset_seen && me.total_written() < ready_total && credit > 0 {
+            viol!(
+                "c13-ready-local-data-not-taken",
+                "the local side has {} bytes ready that the bridge never took ({} of {ready_total} taken), the stream is open, {credit} units of send credit are available and the bridge future is pending with no wake-up source",
+                ready_total - me.total_written(),
+                me.total_written()
+            );
+        }
+    }
     // (5) both directions ended => the future returns the two true byte counts
     let both_ended = local_eof && peer.shutdown_at.is_some() && local_shutdown && local_err.is_none() && !peer_let_go && me.total_read() == peer.total_written();
     if both_ended {
@@ -184,5 +205,5 @@ pub fn c13(ctx: &Ctx, rep: &mut Report) {
                 true byte counts on completion, and after any failed local operation the future must be complete at quiescence with an error. Non-trivial = the script has a Pending point and a partial write, or an error, or a peer abort. Distinct = distinct case value."
         .into();
     rep.assumptions = sim_assumptions();
-    ctx.prop(rep, "bridge", ctx.tier.pick(60_000, 2_000_000), 300, c13_case, run_c13);
+    ctx.prop(rep, "bridge", ctx.tier.pick(60_000, 2_000_000), 300, || super::gens::with_keepalive(c13_case()), run_c13);
 }
